@@ -196,44 +196,32 @@ static void reply(const char *conn1, const char *conn2, const char *xname)
 #define B1 "\x01"
 #define B2 "\x01\x01"
 #define B3 "\x01\x01\x01"
-#define B4 "\x01\x01\x01\x01"
-// short fully symbolic Connection value; one-byte extension name (thorough: two bytes)
-#define ANY T(B3, B4), T("E", "xE")
-// a standard option first, then a symbolic tail: separator, OWS, empty elements, the extension name in either case
-#define TAIL T("close" B3, "close" B4), T("Xe", "X-e")
-// symbolic head before a standard option
-#define HEAD T(B3 "keep-alive", B4 "keep-alive"), T("Xe", "X-e")
-// symbolic separators/OWS between two concrete elements that name fields, then a symbolic element
-#define MID T("xe" B2 "x-keep" B1, "xe" B3 "x-keep" B1), "xE"
-// a registered end-to-end name listed with symbolic case/neighbours
-#define REG T(B1 "ccep" B2, B1 "cce" B3), "Xe"
-// symbolic extension name against a partly symbolic list
-#define NAME T("close,xE" B1, "close,xE" B1 ",k" B1), T("\x02\x02", "\x02\x02")
-// two Connection header fields
-#define TWO T(B3, B4), T("Xe", "X-e")
-
-#define FAM(fn, call) extern "C" void fn(void) { call; }
-#define REQ1_(fn, conn, name) FAM(fn, request(conn, nullptr, name, false))
-#define REP1_(fn, conn, name) FAM(fn, reply(conn, nullptr, name))
-#define REQ2_(fn, conn, name) FAM(fn, request("close", conn, name, false))
-#define REP2_(fn, conn, name) FAM(fn, reply("close", conn, name))
-#define REQ1(fn, ...) REQ1_(fn, __VA_ARGS__)
-#define REP1(fn, ...) REP1_(fn, __VA_ARGS__)
-#define REQ2(fn, ...) REQ2_(fn, __VA_ARGS__)
-#define REP2(fn, ...) REP2_(fn, __VA_ARGS__)
-REQ1(c04_req_any, ANY)
-REQ1(c04_req_tail, TAIL)
-REQ1(c04_req_head, HEAD)
-REQ1(c04_req_mid, MID)
-REQ1(c04_req_reg, REG)
-REQ1(c04_req_name, NAME)
-REQ2(c04_req_two, TWO)
-REP1(c04_rep_any, ANY)
-REP1(c04_rep_tail, TAIL)
-REP1(c04_rep_head, HEAD)
-REP1(c04_rep_mid, MID)
-REP1(c04_rep_reg, REG)
-REP1(c04_rep_name, NAME)
-REP2(c04_rep_two, TWO)
-// every flag and login mode; Connection value ' x' b ', close' with the extension name 'x' n
-extern "C" void c04_req_flags(void) { request(" x" B1 ", close", nullptr, "x\x02", true); }
+#define B5 "\x01\x01\x01\x01\x01"
+struct Family { const char *conn1, *conn2, *xname; };
+static const Family Families[] = {
+    // 0 any: short fully symbolic Connection value
+    {T(B3, B5), nullptr, T("E", "xE")},
+    // 1 two: two Connection header fields, the second fully symbolic
+    {"close", T(B3, B5), T("Xe", "X-e")},
+    // 2 tail: a standard option first, then a symbolic tail: separator, OWS, empty elements, the extension name in either case
+    {T("close" B3, "close" B5), nullptr, T("Xe", "X-e")},
+    // 3 head: symbolic head before a standard option
+    {T(B3 "keep-alive", B5 "keep-alive"), nullptr, T("Xe", "X-e")},
+    // 4 mid: symbolic separators/OWS between two concrete elements that name fields, then a symbolic element
+    {T("xe" B2 "x-keep" B1, "xe" B3 "x-keep" B2), nullptr, "xE"},
+    // 5 reg: a registered end-to-end name (Accept) listed with symbolic case/neighbours
+    {T(B1 "ccep" B2, B2 "cce" B3), nullptr, "Xe"},
+    // 6 name: symbolic extension name against a partly symbolic list
+    {T("close,xE" B1, "close,xE" B1 ",k" B1), nullptr, T("\x02\x02", "\x02\x02\x02")},
+    // 7 flags: concrete header 'Connection: xE , close', extension field 'Xe' (request(): every flag and login mode symbolic)
+    {" xE , close", nullptr, "Xe"},
+};
+static const Family &family(const unsigned first, const unsigned count)
+{
+    return Families[first + (unsigned)vf_concretize(vf_range(0, count - 1, "family"))];
+}
+extern "C" void c04_req_short(void) { const Family &f = family(0, 2); request(f.conn1, f.conn2, f.xname, false); }
+extern "C" void c04_req_edges(void) { const Family &f = family(2, 2); request(f.conn1, f.conn2, f.xname, false); }
+extern "C" void c04_req_named(void) { const Family &f = family(4, 3); request(f.conn1, f.conn2, f.xname, false); }
+extern "C" void c04_req_flags(void) { const Family &f = Families[7]; request(f.conn1, f.conn2, f.xname, true); }
+extern "C" void c04_rep_lists(void) { const Family &f = family(0, 7); reply(f.conn1, f.conn2, f.xname); }
